@@ -171,9 +171,11 @@ def _tg_pre(ctx):
     if not num(off) or mode not in RMODES:
         REC.skip("shift.textgrid", "outside-domain-args")
         return SKIP
-    if not _tg_valid(s):
-        REC.skip("shift.textgrid", "receiver-not-validate-clean")
+    if not _tg_wellformed(s):
+        REC.skip("shift.textgrid", "receiver-not-well-formed")
         return SKIP
+    if not _tg_valid(s):
+        REC.cls("C09:shift.textgrid:tier-narrower-than-its-textgrid")
     return (s, off, mode)
 
 
@@ -425,6 +427,10 @@ def rand_tg(rng, names, hi, src, p_empty=0.2, lo=0.0):
             ents = [(a + lo, b + lo, l) for a, b, l in gen.rand_interval_entries(rng, 4, hi - lo, src=src)]
         else:
             ents = [(t + lo, l) for t, l in gen.rand_point_entries(rng, 4, hi - lo, src=src)]
+        if ents and len(tg.tiers) and rng.random() < 0.2:
+            # a tier that covers only the stretch it annotates (it starts later / ends earlier than the textgrid that holds it)
+            tg.addTier(make_tier(kind, n, ents, rng.choice([lo, ents[0][0]]), rng.choice([hi, ents[-1][-2] if ents[-1][-2] > ents[0][0] else hi])), reportingMode="silence")
+            continue
         tg.addTier(make_tier(kind, n, ents, lo, hi), reportingMode="silence")
     return tg
 
